@@ -580,9 +580,12 @@ func precedenceOfKinds(kind1 reflect.Kind, kind2 reflect.Kind) reflect.Kind {
 // that storage is written later. Structs and arrays stay as they are:
 // assigning to their fields and elements relies on their being addressable.
 func detach(rv reflect.Value) reflect.Value {
-	if rv.Kind() == reflect.Interface && rv.IsNil() && rv.CanAddr() {
-		// the shared nil value: a variable set to nil must not give access to it
-		return reflect.Zero(rv.Type())
+	if rv.Kind() == reflect.Interface && rv.CanAddr() {
+		// an element of a list or the shared nil value: take what it holds now
+		if rv.IsNil() {
+			return reflect.Zero(rv.Type())
+		}
+		return rv.Elem()
 	}
 	if rv.CanAddr() && rv.CanInterface() && rv.Kind() != reflect.Struct && rv.Kind() != reflect.Array && rv.Kind() != reflect.Interface {
 		return reflect.ValueOf(rv.Interface())
